@@ -349,6 +349,74 @@ func scenario(lay layout, prog [][]call, bound, raceBound int) schk.Scenario {
 	}
 }
 
+// unhashableScenario: a Set[any] is handed a value that cannot be hashed (a slice inside the interface):
+// the call panics like a map access would and the caller recovers. Whatever that call did, the set must
+// be as usable as before for this thread and for another one, and hold what it held.
+func unhashableScenario(state int, op string) schk.Scenario {
+	type urec struct {
+		done [2]bool
+		has  [3]bool
+		n    int
+	}
+	name := fmt.Sprintf("Set[any]/%s|T0 %s(unhashable value, recovered) Add(y) || T1 Has(x) Add(z)", []string{"fresh", "after Add(x)", "after Add(x) Len()"}[state], op)
+	return schk.Scenario{
+		Name: name, Bound: -1, RaceBound: -2, ExpectDeadlock: true,
+		Body: func(s *vrt.Sched) any {
+			r := &urec{}
+			set := new(sync2.Set[any])
+			if state >= 1 {
+				set.Add("x")
+			}
+			if state >= 2 {
+				set.Len()
+			}
+			bad := any([]int{1})
+			s.Spawn("T0", func() {
+				func() {
+					defer func() { recover() }()
+					switch op {
+					case "Add":
+						set.Add(bad)
+					case "Has":
+						set.Has(bad)
+					default:
+						set.Remove(bad)
+					}
+				}()
+				set.Add("y")
+				r.done[0] = true
+			})
+			s.Spawn("T1", func() {
+				set.Has("x")
+				set.Add("z")
+				r.has = [3]bool{set.Has("x"), set.Has("z"), set.Has("nope")}
+				r.done[1] = true
+			})
+			s.Spawn("T2", func() {}) // keeps the scenario shape uniform
+			_ = r.n
+			return [2]any{r, set}
+		},
+		Check: func(x *vrt.Exec, obs any) (*schk.Fail, string) {
+			pair := obs.([2]any)
+			r, set := pair[0].(*urec), pair[1].(*sync2.Set[any])
+			if x.Panic != "" {
+				return nil, "panic"
+			}
+			if x.Deadlock || !r.done[0] || !r.done[1] {
+				return schk.Failf("blocked-after-recovered-panic", "after a call with an unhashable value panicked (and was recovered) ordinary calls on the set never return: %v", x.Blocked), ""
+			}
+			want := 2
+			if state >= 1 {
+				want = 3
+			}
+			if r.has != [3]bool{state >= 1, true, false} || set.Len() != want || !set.Has("y") {
+				return schk.Failf("final-state", "after a recovered panic on an unhashable value: Has(x),Has(z),Has(nope) = %v, Len = %d (want %d), Has(y) = %v", r.has, set.Len(), want, set.Has("y")), ""
+			}
+			return nil, "ok"
+		},
+	}
+}
+
 func main() {
 	r := ev.Start("C05")
 	full := []call{{"Add", 0}, {"Add", 1}, {"Remove", 0}, {"Remove", 1}, {"Has", 0}, {"Has", 1}, {"AddSet", 3}, {"RemoveSet", 3}, {"AddSet", 1}, {"Len", 0}}
@@ -522,6 +590,11 @@ func main() {
 				}
 				scs = append(scs, scenario(li, [][]call{{{"AddSet", big(3, pad)}}, {{"Add", 1}, {"Len", 0}}, {{"Remove", 0}}}, 1, -2))
 			}
+		}
+	}
+	for state := 0; state < 3; state++ {
+		for _, op := range []string{"Add", "Has", "Remove"} {
+			scs = append(scs, unhashableScenario(state, op))
 		}
 	}
 	schk.WorkerExtra = func() map[string]int64 {
